@@ -451,6 +451,12 @@ def main(argv=None):
         return 2
     agg.timeouts = len(timeouts)
 
+    if first_bad and os.environ.get('VERIF_VERBOSE'):
+        cnt = {}
+        for idx, v, run in first_bad:
+            cnt.setdefault(v.get('sig'), [0, v['msg'][:160]])[0] += 1
+        for sg, (n_, m_) in sorted(cnt.items(), key=lambda kv: -kv[1][0]):
+            print('SIG %5d  %s  | %s' % (n_, sg, m_.replace('\n', ' ')))
     if first_bad:
         first_bad.sort(key=lambda t: t[0])
         # report each distinct sig once; minimise the first
